@@ -12,6 +12,7 @@ import (
 	"verifharness/core"
 	"verifharness/drive"
 	"verifharness/gen"
+	"verifharness/iofault"
 	"verifharness/refmcap"
 )
 
@@ -135,7 +136,9 @@ func checkLayout(lc *layoutCase, e *expected, rep *core.Report, witness map[stri
 	}
 	// lexer
 	for _, validate := range []bool{false, true} {
-		lr := drive.Lex(bytes.NewReader(lc.data), drive.LexOpts{Validate: validate, ComputeAttCRC: true})
+		// the source yields the processor before every Read: a decompressor that reads ahead on a goroutine
+		// of its own then really runs concurrently with the lexer, whatever the machine is doing
+		lr := drive.Lex(iofault.Yielding{R: bytes.NewReader(lc.data)}, drive.LexOpts{Validate: validate, ComputeAttCRC: true})
 		if lr.Panic != nil {
 			return fail("lexer-panic", "lexer(validate=%v) panicked: %v", validate, lr.Panic)
 		}
